@@ -60,6 +60,9 @@ class StreamingHandler(AsyncCallbackHandler, AsyncIterator):
         # The current buffer, until we start the processing.
         self.buffer = ""
 
+        # Whether the LLM finished streaming while the content was still being buffered.
+        self.ended_while_buffering = False
+
         # The full completion
         self.completion = ""
 
@@ -124,6 +127,11 @@ class StreamingHandler(AsyncCallbackHandler, AsyncIterator):
 
         await self.push_chunk(self.buffer)
         self.buffer = ""
+
+        # If the LLM finished in the meantime, there will be no other end of stream signal.
+        if self.ended_while_buffering:
+            self.ended_while_buffering = False
+            await self._finish_stream()
 
     async def __anext__(self):
         element = None
@@ -315,6 +323,17 @@ class StreamingHandler(AsyncCallbackHandler, AsyncIterator):
         **kwargs: Any,
     ) -> None:
         """Run when LLM ends running."""
+        if self.enable_buffer:
+            # The buffered content (and the expected pattern) is processed when the
+            # buffering is disabled; until then we only record that the stream has ended.
+            self.ended_while_buffering = True
+            self.top_k_nonempty_lines_event.set()
+            return
+
+        await self._finish_stream()
+
+    async def _finish_stream(self) -> None:
+        """Processes what is left of the stream and signals its end."""
         if self.current_chunk:
             if self.suffix and self.current_chunk.endswith(self.suffix):
                 self.current_chunk = self.current_chunk[: -1 * len(self.suffix)]
